@@ -382,6 +382,7 @@ static void myth_notify_workers_exit(void) {
     if (0) { }
 #endif
     else{
+      MYTH_VERIF_POINT(MYTH_VS_EXIT_FLAG_WR);
       if (g_envs[i].exit_flag == 0)
 	g_envs[i].exit_flag = 1;
     }
@@ -413,6 +414,7 @@ static inline void myth_startpoint_exit_ex_body(int rank)
     intptr_t rank_ = rank;
     myth_thread_t th;
     th = env->this_thread;
+    MYTH_VERIF_PROBE(MYTH_VP_MAIN_MIGRATE_BACK, th);
     myth_swap_context_withcall(&th->context, &env->sched.context, 
 			       myth_startpoint_exit_ex_1,
 			       (void*)th, (void*) rank_, NULL);
@@ -626,6 +628,9 @@ static void myth_sched_loop(void)
     if (!next_run){
       //next_run=myth_steal_from_others(env);
       next_run=g_myth_steal_func(env->rank);
+#if defined(MYTH_VERIF)
+      if (next_run) MYTH_VERIF_PROBE(MYTH_VP_STEAL_HIT, next_run);
+#endif
     }
     if (next_run)
       {
@@ -649,6 +654,10 @@ static void myth_sched_loop(void)
       // TODO: make it portable
       __asm__ __volatile("pause;");
     }
+#endif
+#if defined(MYTH_VERIF)
+    /* nothing to run: tell the simulator this iteration was idle */
+    if (!next_run && env->exit_flag!=1) MYTH_VERIF_SPIN(MYTH_VS_IDLE);
 #endif
     //Check exit flag
     if (env->exit_flag==1){
